@@ -782,10 +782,25 @@ def key_atoms(K, truth, depth=0):
         return []
     if K[0] == "b" and K[1] in NEG and isinstance(K[3], tuple) and K[3][0] == "i":
         return [("cmp", K[2], K[1] if truth else NEG[K[1]], K[3][1])]
+    def _const_truth(k):
+        return (k[1] != 0) if (isinstance(k, tuple) and len(k) == 2 and k[0] == "i" and isinstance(k[1], int)) else None
     if K[0] == "b" and K[1] == "&&":
-        return key_atoms(K[2], True, depth + 1) + key_atoms(K[3], True, depth + 1) if truth else []
+        if truth:
+            return key_atoms(K[2], True, depth + 1) + key_atoms(K[3], True, depth + 1)
+        # a conjunction is false; when one conjunct is a constant that holds (sizeof(int) > 2), the other one is false
+        if _const_truth(K[2]) is True:
+            return key_atoms(K[3], False, depth + 1)
+        if _const_truth(K[3]) is True:
+            return key_atoms(K[2], False, depth + 1)
+        return []
     if K[0] == "b" and K[1] == "||":
-        return key_atoms(K[2], False, depth + 1) + key_atoms(K[3], False, depth + 1) if not truth else []
+        if not truth:
+            return key_atoms(K[2], False, depth + 1) + key_atoms(K[3], False, depth + 1)
+        if _const_truth(K[2]) is False:
+            return key_atoms(K[3], True, depth + 1)
+        if _const_truth(K[3]) is False:
+            return key_atoms(K[2], True, depth + 1)
+        return []
     if K[0] == "u" and K[1] == "!":
         return key_atoms(K[2], not truth, depth + 1)
     if K[0] in ("c", "m", "v", "x"):
